@@ -561,7 +561,9 @@ func TestWorker(t *testing.T) {
 		if out.OverBudget() {
 			return
 		}
-		out.Progress(c.Name())
+		if !out.Begin(c.Name()) {
+			continue
+		}
 		out.Cells++
 		rep, _, v := explore(c, nil)
 		out.Outcome(c.Pool, c.Name())
